@@ -253,6 +253,22 @@ def _process_item(kind, head, sub, meta, occ=None):
             e += 1
         rec["drops"].append("D2 dropstmt: `" + " ".join(text[k:e].split())[:160] + "`")
         text = text[:k] + text[e:]
+    # 1y. `//@loopbody <n> `replacement``: the BODY of the n-th loop is replaced by the given statement(s) — a stated abstraction (D6): what is
+    # verified is the loop's traversal (which elements, in which order, how often), not what is done with each element.
+    for (d, tail, lines) in sub:
+        if d != "loopbody":
+            continue
+        nth = int(tail.split()[0])
+        t = _ticks(tail)
+        tm0 = R.mask(text)
+        lo0 = R.next_open_brace(tm0, tm0.find("fn ")) if kind == "fn" else 0
+        ls0 = R.loops(tm0, lo0, len(tm0))
+        if len(ls0) < nth or len(t) != 1:
+            raise ExtractError(f"{what}: loopbody: loop #{nth} not found / bad directive")
+        ob = ls0[nth - 1]["body_open"]
+        cb = R.match_bracket(tm0, ob)
+        rec["drops"].append(f"D6 loopbody: the body of loop #{nth} ({text.count(chr(10), ob, cb)} lines) replaced by `{t[0]}`")
+        text = text[:ob + 1] + "\n" + t[0] + "\n" + text[cb:]
     # 1a. `//@forwhile <n>` (R4, generic): the n-th loop, which must be `for X in A..B {` or `for X in A..=B {` over integers, is read as
     # `let mut __X = A; while __X < B { let X = __X; __X += 1;` (`<=` for the inclusive form).  Purely syntactic; whatever the bounds
     # are in the current tree is what gets verified (so an edited bound is decided, not a lost pattern).  Several loops: highest n first.
@@ -374,7 +390,7 @@ def _process_item(kind, head, sub, meta, occ=None):
                     e += 1
                 pos = e
             inserts.append((pos, order, "\n" + ghost + "\n", f"{mm.group(1)} `{t[0]}`"))
-        elif d.startswith("rewrite") or d in ("strslice", "forwhile", "dropstmt"):
+        elif d.startswith("rewrite") or d in ("strslice", "forwhile", "dropstmt", "loopbody"):
             pass
         else:
             raise ExtractError(f"{what}: unknown sub-directive {d}")
